@@ -63,7 +63,18 @@ def o_b58_string(case):
         _bad("b58:string-roundtrip", "b2a(a2b(%r)) = %r" % (s, back))
     if ps.parse_b58(s) != got:
         _bad("b58:parseable_str", "parse_b58(%r)" % s)
-    return ["valid", "lead1=%d" % min(3, len(s) - len(s.lstrip("1")))]
+    # the same string offered to the Base58Check decoder: accepted only if its last four decoded bytes are the
+    # checksum of what precedes them (a string decoding to fewer than four bytes carries no checksum at all)
+    refc = refenc.b58check_decode(s)
+    try:
+        gotc = a2b_hashed_base58(s)
+    except EncodingError:
+        gotc = None
+    validc = is_hashed_base58_valid(s)
+    if gotc != refc or validc != (refc is not None):
+        _bad("b58check:short-or-unchecked-accepted" if refc is None else "b58check:valid-refused",
+             "string %r (decodes to %d bytes): a2b_hashed_base58 -> %r, is_hashed_base58_valid=%r, reference %r" % (s, len(got), gotc, validc, refc))
+    return ["valid", "lead1=%d" % min(3, len(s) - len(s.lstrip("1"))), "decoded-bytes=%s" % (len(got) if len(got) < 4 else "4+")]
 
 
 def cases_b58_bytes(tier):
@@ -77,6 +88,14 @@ def cases_b58_strings(tier):
     for n in (0, 1, 2, 3):
         for t in itertools.product(B58, repeat=n):
             yield {"s": "".join(t)}
+    # strings that decode to fewer than four bytes which happen to be a prefix of a checksum (of the empty payload, or of
+    # the bytes before them), and the shortest well-formed Base58Check strings around them
+    import hashlib
+    for payload in (b"", b"\0", b"\x01", b"\xff", b"\0\0"):
+        full = payload + hashlib.sha256(hashlib.sha256(payload).digest()).digest()[:4]
+        for cut in range(len(full) + 1):
+            yield {"s": refenc.b58encode(full[:cut])}
+            yield {"s": refenc.b58encode(full[len(payload):len(payload) + cut])}
 
 
 def s_b58_bytes():
@@ -428,7 +447,7 @@ SUBCHECKS = [
              rule="all byte strings of length <= 2: b2a == reference, a2b(b2a(x)) == x, hashed round trip; non-trivial = leading zero byte"),
     SubCheck("b58_strings_exhaustive", o_b58_string, cases=cases_b58_strings, exhaustive=True,
              nontrivial=lambda c, l: c["s"].startswith("1"),
-             rule="all strings over the Base58 alphabet of length <= 3: a2b == reference, b2a(a2b(s)) == s; non-trivial = leading '1'"),
+             rule="all strings over the Base58 alphabet of length <= 3, plus every truncation of the Base58Check form of five tiny payloads: a2b == reference, b2a(a2b(s)) == s, and the Base58Check decoder / validity predicate agree with the reference (strings decoding to < 4 bytes are refused); non-trivial = leading '1'"),
     SubCheck("b58_bytes_generated", o_b58_bytes, strategy=s_b58_bytes, budget=(4000, 400000),
              nontrivial=lambda c, l: c["data"].startswith("00"),
              rule="byte strings 0-120 bytes with 0-12 leading zeros; non-trivial = leading zero byte"),
